@@ -171,7 +171,7 @@ def run(rep):
                 "program emitting >= 1 trace; distinct by source text")
     rep.assumptions = ["programs whose original or rewritten outcome is StackOverflow are skipped (rewrites add frames)",
                        "tailstrict is not generated (a parenthesised or renamed call is not in tail position by design)"]
-    vlib.prelude(rep, extra_modules=['RsjProps.C04Eval'])
+    vlib.prelude(rep, extra_modules=['RsjProps.C04Eval', 'RsjProps.C04Rewrite'])
     rng = rep.rng
     n = 1500 if rep.tier == 'quick' else 12000
     gen = G.Gen(rng, max_depth=5)
